@@ -5,6 +5,7 @@ import Driver.C05
 import Driver.C06
 import Driver.C08
 import Driver.C11
+import Driver.C12
 open GqlVerif GqlVerif.Driver
 
 /-- dispatch one request; unknown op → `unsupported` -/
@@ -17,6 +18,7 @@ def dispatch (op : String) (args : Json) : Option Json :=
   | "c08.legacy" => some (c08legacy args)
   | "c02.render" => some (c02render args)
   | "c11.accept" => some (c11accept args)
+  | "c12.run" => some (c12run args)
   | "c05.lex" => some (c05lex args)
   | "c05.limits" => some (c05limits args)
   | _ => none
